@@ -33,10 +33,10 @@ CLAIMS.update({
    text="FRAME's byte is written only by the in-place patch of generate_internal; can_emit(Frame) is false on every leaf and no emission leaf (safe or unsafe rewrite), collapse step or header decodes to FRAME; the 9 reserved bytes exist only for protocols 4/5 directly after PROTO; the patched size is, as a linear term over the opaque appended lengths, (output length after STOP) - (position + 9), written as 8 LE bytes at position+1, with no write after it; every truncation during the body targets the opcode boundary recorded by create_snapshot, which only emit_and_process calls.",
    note="emit_and_process / cleanup_for_stop are stubbed as append-only in this rule; that they are append-only is what R06.d/R04.c check on their own leaves", ref="4/C06"),
  "C08": dict(cat="other", tech="must-pass-through / non-interference on the interpreted generate_internal from an unknown entry state + field coverage of reset()",
-   text="generate_internal is interpreted from a completely unknown scratch state: every use of output, stack, memo and proto_emitted is preceded by an event clearing it; reset() clears every scratch field; configuration fields are written by no generation, emission, collapse or reset leaf; entry points call generate_internal exactly once and return a copy of the whole buffer; no mutable static/thread-local is reachable; the Python binding forwards generate_from_bytes to the same inner generator.",
+   text="generate_internal is interpreted from a completely unknown scratch state: every use of output, stack, memo and proto_emitted is preceded by an event clearing it; reset() clears every scratch field; configuration fields are written by no generation, emission, collapse or reset leaf; entry points call generate_internal exactly once and return its result (every Ok path is the result of one call of this call); Mutator implementors have no interior-mutable fields (R08.f); unknown fields written by generation are not read as left by the previous call (R08.e); no mutable static/thread-local is reachable; the Python binding forwards generate_from_bytes to the same inner generator.",
    note="known field roles are fixed in analysis/absgen.py; a new scalar/enum/struct/byte-vector field gets a generic abstraction and its role (configuration vs per-pickle state) is inferred from which code writes it (R08.e); other new field types fail closed", ref="4/C08"),
  "C10": dict(cat="proof", tech="guard extraction + who-may-emit over all emission leaves (safe and unsafe) + default/writer rules",
-   text="Every enabled leaf of EXT1/2/4 (NEXT_BUFFER/READONLY_BUFFER) has allow_ext_opcodes (allow_buffer_opcodes) materialised true; no emission leaf, unsafe type-confusion rewrite, collapse step or header decodes to one of the five opcodes unless its flag is true; Default/new yield both flags false and only the two builder methods write them; the two CLI flags are forwarded in both modes.",
+   text="Every enabled leaf of EXT1/2/4 (NEXT_BUFFER/READONLY_BUFFER) has allow_ext_opcodes (allow_buffer_opcodes) materialised true; no emission leaf, unsafe type-confusion rewrite, collapse step or header decodes to one of the five opcodes unless its flag is true; Generator::new/Default are interpreted and yield both flags false; every with_*/set_* method is interpreted: a flag is only ever set to the method's own boolean argument, and no flag writer is reachable from a generation call; the valid-opcode list is the table row filtered by can_emit in the current state (shared premise); the two CLI flags are forwarded in both modes.",
    note="trusted: clap bool flags default to false", ref="4/C10"),
  "C11": dict(cat="other", tech="structural premises P1-P5 on interpreted leaves + fixed arithmetic lemma",
    text="P1 loop bound term = min + draw<(max-min) (or min), P2 one emit_and_process per counted iteration, P3 every feasible emission leaf (safe/unsafe) decodes to exactly one opcode, P4 net growth <= 1, P5 collapse tail <= items+marks+1; the totals follow by the lemma in DESIGN.md.",
